@@ -213,7 +213,8 @@ def verify_all(mod_names: List[str], keys: List[str], workers: int = 16, timeout
                 pass
     # phase C: whatever is still open is retried alone, sequentially (at most a handful: a broken tree fails many VCs, and
     # those need no retry once one of them has a confirmed counterexample)
-    still = [(k, x) for k in keys if out[k]["status"] == "ok" for x in out[k]["results"] if x["status"] not in ("unsat", "sat")]
+    recorded = set(filter(None, os.environ.get("PYVC_RECORDED_FINDINGS", "").split("\x1f")))  # obligations of recorded proof-side findings: expected open, their native witness is replayed instead of a retry
+    still = [(k, x) for k in keys if out[k]["status"] == "ok" for x in out[k]["results"] if x["status"] not in ("unsat", "sat") and x["name"] not in recorded]
     any_confirmed = any(x.get("confirmed") for k in keys if out[k]["status"] == "ok" for x in out[k]["results"])
     if still and not any_confirmed and len(still) <= 6:
         ex1 = ProcessPoolExecutor(max_workers=1)
